@@ -60,10 +60,15 @@ def init : St := ⟨0x67452301, 0xefcdab89, 0x98badcfe, 0x10325476⟩
 
 /-- one step "a = b + ((a + f(b,c,d) + X[k] + T[i]) <<< s)" followed by the rotation of the
     roles (a b c d) -> (d a b c) that the RFC writes out as [ABCD] [DABC] [CDAB] [BCDA] -/
-def step (x : List Nat) (st : St) (i : Nat) : St :=
-  let t := add32 (add32 (add32 st.a (aux i st.b st.c st.d)) (x.getD (xIndex i) 0)) (T.getD i 0)
-  let nb := add32 st.b (rotl32 t (S.getD i 0))
+def step (x : List Nat) (st : St) (e : Nat × Nat × Nat × Nat) : St :=
+  let (i, ti, si, k) := e
+  let t := add32 (add32 (add32 st.a (aux i st.b st.c st.d)) (x.getD k 0)) ti
+  let nb := add32 st.b (rotl32 t si)
   ⟨st.d, nb, st.b, st.c⟩
+
+/-- the 64 steps: (i, T[i+1], s, k) — the table of RFC 3.4 rounds 1-4, built once -/
+def steps : List (Nat × Nat × Nat × Nat) :=
+  (List.range 64).map fun i => (i, T.getD i 0, S.getD i 0, xIndex i)
 
 /-- little-endian word of 4 bytes (RFC 2: "a sequence of bytes is a 32-bit word, low-order first") -/
 def wordLE : List UInt8 → Nat
@@ -78,7 +83,7 @@ def blockWords : (n : Nat) → List UInt8 → List Nat
 /-- RFC 3.4: process one 16-word block -/
 def processBlock (st : St) (block : List UInt8) : St :=
   let x := blockWords 16 block
-  let r := (List.range 64).foldl (step x) st
+  let r := steps.foldl (step x) st
   ⟨add32 st.a r.a, add32 st.b r.b, add32 st.c r.c, add32 st.d r.d⟩
 
 def leBytes : (n : Nat) → Nat → List UInt8
